@@ -170,10 +170,16 @@ def run(ctx: Ctx):
         u.register_tree(dest_owner)
         dest = dest_owner.regions[0]
         nb = len(dest.blocks)
+        # half of the trees reuse ONE value / block mapper for all the clones (the "unroll the body N times" idiom): every copy
+        # must still refer to its own block arguments and results
+        shared = ({}, {}) if rng.random() < 0.5 else None
         for idx in [None] + list(range(nb + 1)):
             before = u.project(extras=True)
             old = {id(b) for b in dest.blocks}
-            src_r.clone_into(dest, idx)
+            if shared is None:
+                src_r.clone_into(dest, idx)
+            else:
+                src_r.clone_into(dest, idx, shared[0], shared[1])
             new_blocks = [b for b in dest.blocks if id(b) not in old]
             for b in new_blocks:
                 u.block(b)
@@ -182,7 +188,8 @@ def run(ctx: Ctx):
             after = u.project(extras=True)
             add({"kind": "region_into", "before": before, "after": after, "src": ["blocks", [u.block(b) for b in src_r.blocks]],
                  "cpy": ["blocks", [u.block(b) for b in new_blocks]], "dest": u.region(dest), "index": nb if idx is None else idx},
-                what=f"Region.clone_into non-empty destination at {'default index' if idx is None else 'index ' + ('0' if idx == 0 else 'k>0')}", forward_refs=fwd)
+                what=f"Region.clone_into non-empty destination at {'default index' if idx is None else 'index ' + ('0' if idx == 0 else 'k>0')}"
+                     + (" (mappers reused)" if shared is not None else ""), forward_refs=fwd)
             # undo: erase the inserted blocks so that the next index starts from the same destination
             for b in new_blocks:
                 for o in list(b.ops):
